@@ -575,7 +575,13 @@ func (l *Legacy) OpenIn(t Target, connID string) error {
 		return err
 	}
 	l.inRaw = rawTCP(c)
-	l.syncIn()
+	// The gateway discards whatever its first raw read returns: a chunk that travels with the preamble would be
+	// lost with it. On a busy machine that read can be seconds away, so wait for it much longer than for
+	// ordinary chunks (which may coalesce without harm).
+	if l.inRaw == nil || !procnet.WaitPeerDrained(l.inRaw, 30*time.Second) {
+		time.Sleep(30 * time.Millisecond)
+		l.SleepSync = true
+	}
 	return nil
 }
 
